@@ -155,10 +155,6 @@ Proof.
 Qed.
 
 (* ParityBit in general: the parity bit flips once per set bit *)
-Fixpoint pos_ones (p : positive) : nat :=
-  match p with xH => 1 | xO q => pos_ones q | xI q => S (pos_ones q) end.
-Definition count_ones (n : N) : nat := match n with N0 => O | Npos p => pos_ones p end.
-
 Lemma parity_pos_spec p acc : acc < 2 ->
   parity_pos p acc = if Nat.even (pos_ones p) then acc else N.lxor acc 1.
 Proof.
